@@ -39,6 +39,7 @@ class Recorder:
         self.der = None
         self.norm = {}      # letter -> magnitude bound of the stored matrix
         self.dnorm = {}
+        self.seen, self.dseen = [], []     # words already evaluated on the original / derived object
         self.back = {mode.name(l): l for l in self.letters}
 
     def dict_of(self, rep):
@@ -55,14 +56,26 @@ class Recorder:
     def rand_matrix(self):
         return rr.rand_unimodular(self.rng, self.n, self.rng.randint(1, 2))
 
-    def rand_word(self, norms, maxlen=12):
+    def rand_word(self, norms, maxlen=12, seen=None):
+        """a word over the stored letters; half of the time one that was already evaluated on this
+        object (so the same word is evaluated before and after later assignments), and short words
+        with inverse letters are frequent"""
         avail = [l for l in self.letters if l in norms]
         for _ in range(20):
-            w = [self.rng.choice(avail) for _ in range(self.rng.randint(0, maxlen))]
+            if seen and self.rng.random() < 0.5:
+                w = list(self.rng.choice(seen))
+                if any(x not in norms for x in w):
+                    continue
+            else:
+                top = maxlen if self.rng.random() < 0.5 else min(maxlen, 3)
+                w = [self.rng.choice(avail) for _ in range(self.rng.randint(0, top))]
             p = 1
             for x in w:
                 p *= norms[x]
             if p * max(1, len(w)) < LIMIT:
+                if seen is not None and w not in seen:
+                    seen.append(w)
+                    del seen[:-12]
                 return w
         return []
 
@@ -85,16 +98,16 @@ class Recorder:
         elif op == "setder":
             self.do_set(self.der, self.dnorm, "setder")
         elif op == "eval":
-            w = self.rand_word(self.norm)
+            w = self.rand_word(self.norm, seen=self.seen)
             form = rng.choice(rc.word_forms(self.rep, mode, tuple(w)))
             self.log("eval", w=w, res=ints(form[1]()), form=form[0])
         elif op == "deval":
-            w = self.rand_word(self.dnorm, 8)
+            w = self.rand_word(self.dnorm, 8, seen=self.dseen)
             dm = Mode(mode.naming, False if self.der.parse_simple is False else None, mode.order, mode.dtype)
             form = rng.choice(rc.word_forms(self.der, dm, tuple(w)))
             self.log("deval", w=w, res=ints(form[1]()), form=form[0])
         elif op == "elements":
-            ws = [self.rand_word(self.norm, 6) for _ in range(rng.randint(1, 4))]
+            ws = [self.rand_word(self.norm, 6, seen=self.seen) for _ in range(rng.randint(1, 4))]
             res = rc.plain(self.rep.elements([mode.word(tuple(w)) for w in ws]))
             self.log("elements", ws=ws, res=[ints(m) for m in res])
         elif op == "derive":
@@ -107,6 +120,7 @@ class Recorder:
                 cn, ci = rr.mnorm(C), rr.mnorm(rr.int_inverse(C))
             from .props import c05
             self.der = c05.routes_for_kind(self.rep, k, mode, False)[0][1]()
+            self.dseen = []
             if kind in ("dual", "compose_invT"):
                 self.dnorm = {l: self.norm[rc.swapcase(l)] for l in self.norm}
             else:
@@ -115,7 +129,7 @@ class Recorder:
         elif op == "diff":
             if mode.naming != "single" or mode.parse is False:
                 return
-            w = self.rand_word(self.norm, 6)
+            w = self.rand_word(self.norm, 6, seen=self.seen)
             if not w:
                 return
             s = "".join(w)
